@@ -776,7 +776,7 @@ def _format_path(t_path, root=None):
         if root is not T and not (path_parts and type(path_parts[0]) is list):
             path_parts.insert(0, [])  # keep the S / A root: Path(S, 'b')
         return 'Path(%s)' % ', '.join([_format_t(part, root if i == 0 else T)
-                                       if type(part) is list else repr(part)
+                                       if type(part) is list else bbrepr(part)
                                        for i, part in enumerate(path_parts)])
     return _format_t(cur_t_path, root)
 
